@@ -82,6 +82,16 @@ def _cases(draw):
             lemma = be['lemma']['writtenForm']
             xe.setdefault('forms', []).append(
                 {'writtenForm': draw(st.sampled_from([f for f in POOL if f != lemma]))})
+    if both and len(res['lexicons']) == 2 and not res['lexicons'][1].get('extends'):
+        # two selected lexicons with one id scheme (two versions of a lexicon): the entry that
+        # has the same id in both often has the same lemma too - both have to be found
+        first = {e['id']: e for e in res['lexicons'][0].get('entries', [])}
+        for e in res['lexicons'][1].get('entries', []):
+            if e['id'] in first and draw(st.booleans()):
+                wf = first[e['id']]['lemma']['writtenForm']
+                if not any(f.get('writtenForm') == wf for f in e.get('forms', [])):
+                    e['lemma']['writtenForm'] = wf
+                    e['lemma']['partOfSpeech'] = first[e['id']]['lemma']['partOfSpeech']
     specs = [gen.spec_of(d) for d in res['lexicons']]
     sel = ' '.join(specs) if both else specs[0]
     stored = sorted({f['writtenForm'] for lx in res['lexicons'] for e in lx.get('entries', [])
@@ -284,6 +294,10 @@ def _classify(case):
                for lx in res['lexicons']]
         if len(specs) > 1 and ids[0] & ids[1]:
             tags.add('selected-lexicons-share-ids')
+            lem = [{e['id']: e['lemma']['writtenForm'] for e in lx.get('entries', [])
+                    if not e.get('external')} for lx in res['lexicons']]
+            if any(lem[0].get(i) == w_ for i, w_ in lem[1].items()):
+                tags.add('same-id-and-lemma-in-both-selected-lexicons')
         if len(specs) == 1:
             tags.add('unselected-lexicon-present')
     nt = bool(tags & {'exact-hit', 'normalized-column-hit', 'back-off-hit',
@@ -307,5 +321,6 @@ SUBS = [
         require_tags=('exact-hit', 'normalized-column-hit', 'back-off-hit',
                       'miss-with-near-match', 'lemmatizer-empty-group', 'extension-adds-form-to-base-entry',
                       'extension-form:extension-selected', 'extension-form:base-alone', 'lem:table', 'lem:morphy', 'lem:morphy-init',
-                      'groups-mixed-hit-and-backoff-only', 'selected-lexicons-share-ids')),
+                      'groups-mixed-hit-and-backoff-only', 'selected-lexicons-share-ids',
+                      'same-id-and-lemma-in-both-selected-lexicons')),
 ]
